@@ -173,3 +173,129 @@ def check_C08(ctx):
     ctx.notes.update(st)
     ctx.sample(read_line(shards[0], 1))
     reproduce_asm(ctx, "C08", rej)
+
+
+# ------------------------------------------------------------------ C05
+def tlc_cases(ctx, cfg, timeout=3000):
+    """Run Pipeline.tla with the Emit invariant; returns path of an ndjson file with the printed cases."""
+    r = ctx.tlc("Pipeline", cfg=cfg, workers=NCPU, timeout=timeout, heap="16g")
+    path = os.path.join(ctx.sub("cases"), cfg + ".ndjson")
+    n = 0
+    with open(path, "w") as f:
+        for m in re.finditer(r'^<<"CASE", "(.*)">>$', r["out"], re.M):
+            f.write(m.group(1).replace('\\"', '"') + "\n")
+            n += 1
+    if n == 0:
+        raise ToolError("Pipeline.tla emitted no cases (%s)" % cfg)
+    return path, n, r
+
+
+def run_restartable(ctx, cmd, base_args, out_prefix, total_hint=None, max_restarts=4):
+    """Runs a harness command that writes a progress file and may exit 3 after a hung case or crash; restarts after it."""
+    progress = out_prefix + ".progress"
+    frm = 0
+    crashes = []
+    for attempt in range(max_restarts + 1):
+        p = ctx.run_harness([cmd, "-out", out_prefix, "-progress", progress, "-from", frm] + base_args, check=False, timeout=7200)
+        if p.returncode == 0:
+            return crashes
+        if not os.path.exists(progress):
+            raise ToolError("%s failed before its first case: %s" % (cmd, p.stderr[-1500:]))
+        idx, ci, b64 = open(progress).read().split(" ", 2)
+        crashes.append(dict(id=int(idx), cfg=int(ci), b64=b64, exit=p.returncode, stderr=p.stderr[-800:]))
+        frm = int(idx) + 1
+    # several cases hung or crashed: stop exploring this family, they are reported (after reproduction) by the caller
+    return crashes
+
+
+def check_C05(ctx):
+    ctx.cov["rule"] = ("(1) Pipeline.tla: the FOR expander (one TLA+ case per forStateFn) and the Tokens() consumer as a two-process protocol over token classes; TLC checks NoLeak, Shape and the liveness "
+                       "property Terminates (weak fairness) for EVERY token-class sequence up to length L and for every block-shaped input with bodies up to L tokens. "
+                       "(2) spec -> code: every input enumerated by TLC is printed with the output the spec determines and replayed through the REAL ForExpand (verif accessor): identical output classes, "
+                       "the call returns, no (*forExpander).run / (*lexer).run goroutine survives. (3) every EQU reference graph on <= 3 names x {operand, ;assert, FOR count, ORG, unused} assembled under a "
+                       "deadline: error iff a used name is on a cycle (TLC decides). (4) byte-level fuzz corpus (repository warriors, mutations, soup, invalid UTF-8, NUL, ^Z, CR/LF mixes, unterminated "
+                       "lines; FOR counts tamed) x 7 configurations: TLC checks the terminal-state predicate (returned, err xor warrior, no surviving goroutine, within the deadline). "
+                       "distinct_nontrivial = TLC-generated cases replayed + graph scenarios + fuzz inputs.")
+    ctx.cov["trusted_base"] = ["class <-> token mapping in harness/fx.go", "goroutine accounting by stack frame (runtime.Stack)", "harness clock (deadline)", "TLC"]
+    ctx.assumptions.append("'time proportional to input size' is monitored by a per-case deadline of 10 s (inputs <= 8 KB, typical run < 5 ms); the spec proves termination of the modelled loops only")
+    sfx = "" if ctx.quick else "_thorough"
+    r1 = ctx.tlc("Pipeline", cfg="Pipeline%s.cfg" % sfx, workers=NCPU, timeout=6000, heap="24g")
+    r2 = ctx.tlc("Pipeline", cfg="PipelineB%s.cfg" % sfx, workers=NCPU, timeout=6000, heap="24g")
+    ctx.notes["spec_model"] = "Pipeline%s.cfg: %d states, PipelineB%s.cfg: %d states; NoLeak, Shape, Terminates hold" % (sfx, r1["distinct"], sfx, r2["distinct"])
+    total_cases = 0
+    for cfg in ["Pipeline_emit%s.cfg" % sfx, "PipelineB_emit%s.cfg" % sfx]:
+        path, n, _ = tlc_cases(ctx, cfg)
+        total_cases += n
+        outp = os.path.join(ctx.sub("fx"), cfg)
+        st = ctx.harness_json(["fx", "-in", path, "-out", outp])
+        if st["cases"] != n:
+            raise ToolError("fx replayed %d of %d cases" % (st["cases"], n))
+        for e in read_lines(outp + ".000.ndjson")[:40]:
+            kind = "leak" if e["leak"] else ("hung" if e["hung"] else ("panic" if e["panic"] else "output"))
+            sig = "C05 forexpand %s" % kind
+            ctx.violation(sig, "ForExpand on token classes %s: expected %s, got %s (leak=%d %s hung=%d panic=%s)" % (
+                [x["t"] for x in e["in"]], e["want"], e["got"], e["leak"], e["frame"], e["hung"], e["panic"]), dict(kind="fx", case=dict(**{"in": e["in"], "out": [
+                    (dict(t=w.split(":")[0], v=(w.split(":")[1] if w.startswith("lbl") else int(w.split(":")[1]))) if ":" in w else dict(t=w, v=0)) for w in e["want"]]})))
+        ctx.sample(read_line(path, min(n, 4000)))
+    # (3) EQU graphs
+    egp = os.path.join(ctx.sub("eg"), "eg")
+    crashes = run_restartable(ctx, "equgraphs", [], egp)
+    # (4) fuzz
+    fzp = os.path.join(ctx.sub("fz"), "fz")
+    nf = 6000 if ctx.quick else 200000
+    crashes += run_restartable(ctx, "fuzz", ["-seed", ctx.seed, "-n", nf, "-repo", REPO], fzp)
+    rej, _ = validate_asm(ctx, [egp + ".000.ndjson", fzp + ".000.ndjson"], "C05")
+    neg = count_lines(egp + ".000.ndjson")
+    ctx.cov["traces_validated_against_impl"] = total_cases + neg + nf
+    ctx.cov["evaluations"] = total_cases + neg + nf
+    ctx.cov["distinct_nontrivial"] = total_cases + neg + nf
+    ctx.cov["exhaustive"] = True
+    ctx.notes.update(tlc_generated_cases_replayed=total_cases, equ_graph_scenarios=neg, fuzz_inputs=nf, crashed_or_hung=len(crashes))
+    ctx.sample(read_line(fzp + ".000.ndjson", 30))
+    seen = set()
+    for shard, idx in rej:
+        e = read_line(shard, idx)
+        if e["ev"] == "fuzz":
+            sig = "C05 fuzz %s%s" % (e["outcome"], " leak " + e["frame"] if e["leak"] else "")
+            payload = dict(kind="fuzz", b64=e["b64"], cfg=e["cfg"], event=e)
+        else:
+            sig = "C05 equgraph site=%s outcome=%s%s" % (e["site"], e["outcome"], " leak" if e["leak"] else "")
+            payload = dict(kind="fuzz", b64=__import__("base64").b64encode(e["text"].encode()).decode(), cfg=0, event=e)
+        if sig in seen:
+            continue
+        seen.add(sig)
+        # reproduce alone
+        o = ctx.run_harness(["fuzz", "-only", payload["b64"], "-out", os.path.join(ctx.sub("fr%d" % len(seen)), "r")], check=False, timeout=200)
+        ctx.violation(sig, "assembling %r (configuration #%d): %s" % (__import__("base64").b64decode(payload["b64"])[:200], e.get("cfg", 0), json.dumps({k: v for k, v in e.items() if k not in ("b64", "text")})), payload)
+    for c in crashes[:3]:
+        # reproduce alone before believing it
+        o = ctx.run_harness(["fuzz", "-only", c["b64"], "-out", os.path.join(ctx.sub("cr%d" % c["id"]), "r")], check=False, timeout=300)
+        if o.returncode == 0:
+            raise ToolError("a hung/crashed case did not reproduce when run alone: %r" % c)
+        ctx.violation("C05 did-not-return-or-crashed", "assembling %r did not return within the deadline or crashed the process (exit %d): %s" % (
+            __import__("base64").b64decode(c["b64"])[:200], c["exit"], c["stderr"][-300:]), dict(kind="fuzz", b64=c["b64"], cfg=c["cfg"]))
+
+
+def replay_fuzz(ctx, payload):
+    d = ctx.sub("replay")
+    p = ctx.run_harness(["fuzz", "-only", payload["b64"], "-out", os.path.join(d, "r")], check=False, timeout=300)
+    f = os.path.join(d, "r.000.ndjson")
+    ctx.cov["evaluations"] = 7
+    if p.returncode != 0:
+        ctx.violation(payload["signature"], payload["what"], dict(kind="fuzz", b64=payload["b64"], cfg=payload.get("cfg", 0)))
+        return
+    rej, _ = validate_asm(ctx, [f], "C05")
+    ctx.cov["traces_validated_against_impl"] = 7
+    if rej:
+        ctx.violation(payload["signature"], payload["what"], dict(kind="fuzz", b64=payload["b64"], cfg=payload.get("cfg", 0)))
+
+
+def replay_fx(ctx, payload):
+    d = ctx.sub("replay")
+    src = os.path.join(d, "case.ndjson")
+    open(src, "w").write(json.dumps(payload["case"]) + "\n")
+    st = ctx.harness_json(["fx", "-in", src, "-out", os.path.join(d, "o")])
+    ctx.cov["evaluations"] = 1
+    ctx.cov["traces_validated_against_impl"] = 1
+    if st["mismatches"]:
+        ctx.violation(payload["signature"], payload["what"], dict(kind="fx", case=payload["case"]))
